@@ -418,6 +418,51 @@ def w_formats(w):
         return core.exc_name(e)
 
 
+SPOILS = ('clear', 'reverse', 'pop', 'append')
+
+
+def spoil_formats(w, how):
+    """A caller that edits the list `formats` handed it (filters it, sorts
+    it, pops from it): the list is the caller's, the wrapper's next answer
+    must not depend on it."""
+    try:
+        f = w.formats
+    except Exception:
+        return False
+    if not isinstance(f, list):
+        return False
+    try:
+        if how == 'clear':
+            del f[:]
+        elif how == 'reverse':
+            f.reverse()
+        elif how == 'pop':
+            if f:
+                f.pop()
+        else:
+            f.append(f[0] if f else None)
+    except Exception:
+        return False
+    return True
+
+
+def mutate_collection(c, how, names):
+    """The caller goes on using the collection it passed as allowed_formats
+    (one list edited between uploads)."""
+    try:
+        if how == 'clear':
+            c.clear()
+        elif isinstance(c, list):
+            c.extend(n for n in names if n not in c)
+        elif isinstance(c, set):
+            c.update(names)
+        else:
+            return False
+    except Exception:
+        return False
+    return True
+
+
 def ask_size(ask, req):
     """How much the reader asks for when the source will return `req` bytes
     (short reads: asking for more than comes back is legal for any
